@@ -48,6 +48,9 @@ def run(P, R, tier):
         if o.rule == 'C06.e':
             k += 1
             R._add('C05.d', (o.path, o.site.split('::')[-1]), None, o.status, o.detail, construct=o.construct)
+        elif o.rule == 'C06.d' and o.detail.startswith('[C12.'):
+            # the Dask join zips every partition with ITS row of the partition bounds: rows numbered in partition order, for the partitions that were kept
+            R._add('C05.d', (o.path, o.site.split('::')[-1]), None, o.status, 'partitions are joined against the right rows selected by their own bounds: ' + o.detail, construct=o.construct)
     R.floor('C05.d', 'Dask sjoin obligations', k, 3)
     sub = type(R)(R.prop, R.tier)
     C20.run(P, sub, tier)
